@@ -68,6 +68,8 @@ class Atom(object):
                 "atom length can only be 0, 1 or 8 and higher")
 
         if self.name in _CONTAINERS:
+            if level > 64:
+                raise AtomError("atoms nested too deeply")
             self.children = []
             fileobj.seek(_SKIP_SIZE.get(self.name, 0), 1)
             while fileobj.tell() < self.offset + self.length:
